@@ -162,8 +162,16 @@ Section Check.
       ((ssum * (B / S) - bsum)%Q, (tol + inject_Z cnt / 2 + (1 # 1000))%Q)
     else ((ssum - bsum)%Q, tol).
 
+  (* -normalize cannot make a source total of 0 equal to the base total: the statement is silent
+     there -- unless the source has NO value at all in that column: then scaling changes nothing
+     and the entry must simply be minus the base (the formula below gives 0 * (B/0) - base) *)
+  Definition column_all_zero (t : string) : bool :=
+    forallb (fun p => match col_of p t with
+                      | Some i => forallb (fun s => val_at i s =? 0) (p_sample p)
+                      | None => true
+                      end) srcs.
   Definition norm_degenerate (t : string) : bool :=
-    nm && Qeq_bool (sumQ (map (fun p => inject_Z (colsum p t)) srcs)) 0.
+    nm && Qeq_bool (sumQ (map (fun p => inject_Z (colsum p t)) srcs)) 0 && negb (column_all_zero t).
 
   Definition names_of_tuple : list string :=
     match ps with [] => [] | p0 :: _ => nodup_str (map f_name (p_function p0)) end.
